@@ -189,6 +189,47 @@ func runC13(c *Ctx) {
 		r.Check("R13.1", FuncName(reg), "register(unknown time) is refused with an error", reg.Pos(), why == "" && !out.accepted, why)
 	}
 
+	// ---- R13.4 (handles): what Cells()/Headers() hand out is the row's own cell storage, so &row.Cells()[i] is
+	// the table's cell: a callback registered on it is registered on the cell that will be rendered
+	{
+		rowT := c.Named("", "Row")
+		cellsF := c.Field(rowT, "cells")
+		if fn := c.Method(rowT, true, "Cells"); fn != nil && cellsF != nil {
+			for i, ret := range returnsOf(fn) {
+				ok := true
+				for _, v := range phiClosure(results(ret)[0]) {
+					if isNil(v) {
+						continue
+					}
+					if f, b := loadedField(v); f != cellsF || b != ssa.Value(fn.Params[0]) {
+						ok = false
+					}
+				}
+				r.Check("R13.4", FuncName(fn), fmt.Sprintf("return #%d is the row's own cell list (handles into it address the live cells)", i+1), ret.Pos(), ok,
+					"a copy is handed out: a callback registered on &Cells()[i] or &Headers()[i] is accepted and never fires")
+			}
+		}
+		if fn := c.Method(at, true, "Headers"); fn != nil {
+			for i, ret := range returnsOf(fn) {
+				ok := true
+				for _, v := range phiClosure(results(ret)[0]) {
+					if isNil(v) {
+						continue
+					}
+					call, isCall := v.(*ssa.Call)
+					if isCall && call.Call.StaticCallee() != nil && call.Call.StaticCallee().Name() == "Cells" {
+						continue
+					}
+					if f, _ := loadedField(v); f != nil && f == cellsF {
+						continue
+					}
+					ok = false
+				}
+				r.Check("R13.4", FuncName(fn), fmt.Sprintf("return #%d is the header row's own cell list", i+1), ret.Pos(), ok, "a copy is handed out")
+			}
+		}
+	}
+
 	// ---- R13.7 the invoker runs every callback of the selected list
 	r.Rule("R13.7", "the invoker calls every callback of the list it selected: one call per element, no early exit")
 	c13InvokesAll(c, "R13.7")
